@@ -472,7 +472,39 @@ def oracle_values(cases, impl):
             if l.startswith("N Y:") and "?" in l.split(" | ")[0]:
                 out.append(fail("C18", info, line, "field of an unexpected type: " + l.split(" | ")[0], "type"))
                 break
+            if l.startswith("N Y:"):
+                w = malformed(l.split(" | ")[0].split()[1][2:])
+                if w:
+                    out.append(fail("C18", info, line, w, "malformed"))
+                    break
     return out
+
+
+def malformed(txt):
+    """C18, first sentence, on one emitted action (whatever the history it was emitted in); '' when well formed"""
+    try:
+        a = parse_action(txt)
+    except Exception:  # noqa
+        return "unparsable action " + txt
+    if a[0] == "F":
+        _, n0, n1, wi, wa, sg = a
+        if not 0 <= n0 < n1:
+            return "Forward without 0 <= n0 < n1: " + txt
+        if sg in ("RAM", "DISK") and not (wi or wa):
+            return "Forward names a checkpoint storage but writes nothing: " + txt
+        if sg == "NONE" and (wi or wa):
+            return "Forward writes to storage NONE: " + txt
+        if sg not in ("RAM", "DISK", "WORK", "NONE"):
+            return "Forward storage is not a StorageType: " + txt
+    elif a[0] == "R":
+        _, n1, n0, _ = a
+        if not 0 <= n0 < n1:
+            return "Reverse without n1 > n0 >= 0: " + txt
+    elif a[0] in ("C", "M"):
+        _, n, src, dst = a
+        if n < 0 or src not in ("RAM", "DISK") or dst not in ("RAM", "DISK", "WORK", "NONE"):
+            return "Copy/Move with a bad step, source or destination: " + txt
+    return ""
 
 
 def all_findings(cases, impl):
